@@ -30,7 +30,18 @@ func ZZ_C07_nodesReturn() {
 	// the other nodes run the active template
 	canaryPodLeft := nondet.Bool("canaryPodStillThere")
 	if canaryPodLeft {
-		p := zzPod("canary-pod", zzNodeName(0), rsFailed.Name, zzHashNew, 0, corev1.PodRunning, nondet.Bool("canaryPodReady"), nondet.Base().Add(-600*1e9))
+		var p *corev1.Pod
+		switch nondet.String("canaryPod", "ready", "not-ready", "pending-unschedulable") {
+		case "ready":
+			p = zzPod("canary-pod", zzNodeName(0), rsFailed.Name, zzHashNew, 0, corev1.PodRunning, true, nondet.Base().Add(-600*1e9))
+		case "not-ready":
+			p = zzPod("canary-pod", zzNodeName(0), rsFailed.Name, zzHashNew, 0, corev1.PodRunning, false, nondet.Base().Add(-600*1e9))
+		default:
+			// bound by the node-name affinity and not scheduled yet (the failed template asks for more than the
+			// node has): one minute old, PodScheduled=False/Unschedulable — pending, not stuck
+			p = zzPod("canary-pod", zzNodeName(0), rsFailed.Name, zzHashNew, 1, corev1.PodPending, false, nondet.Base().Add(-60*1e9))
+			p.Status.Conditions = append(p.Status.Conditions, corev1.PodCondition{Type: corev1.PodScheduled, Status: corev1.ConditionFalse, Reason: corev1.PodReasonUnschedulable})
+		}
 		p.Labels[datadoghqv1alpha1.ExtendedDaemonSetReplicaSetCanaryLabelKey] = datadoghqv1alpha1.ExtendedDaemonSetReplicaSetCanaryLabelValue
 		c.Pods = append(c.Pods, p)
 	}
